@@ -27,6 +27,10 @@ func Harness_C19() {
 	if vhConst("OPEN") == 1 {
 		vhAssume(sx > ls[0] && sx < rs[0] && ex > ls[k-1] && ex < rs[k-1])
 	}
+	if vhConst("OPEN") == 2 {
+		// the class of the known finding G11c: start or end point ON A CORNER of its rectangle
+		vhAssume(sx == ls[0] || sx == rs[0] || ex == ls[k-1] || ex == rs[k-1])
+	}
 	start, end := P{sx, ys[0]}, P{ex, ys[k]}
 	if vhConst("PANICS") == 1 {
 		vhCheckPanics()
